@@ -14,7 +14,8 @@ EXTERNAL = {
     "builtins.compile": ("builtins.SyntaxError", "builtins.ValueError"),
     "os.path.getsize": ("builtins.OSError",), "os.stat": ("builtins.OSError",),  # a path that does not exist
     # number / character conversion of CID or data text
-    "builtins.int": ("builtins.ValueError",),  # int("x"), int("07", 0)
+    "builtins.int": ("builtins.ValueError",),  # int("x"), int("07", 0); int(float(...)) see lookup_external
+    "builtins.float": ("builtins.ValueError",),  # float("x")
     "builtins.chr": ("builtins.ValueError", "builtins.OverflowError"),  # chr(0x110000), chr(10**30)
     "decimal.Decimal": ("decimal.InvalidOperation",),  # Decimal("x")
     # (?a)(?u)x: "ASCII and UNICODE flags are incompatible" is a ValueError
@@ -181,6 +182,20 @@ def _is_token_stream(call, func):
     return True
 
 
+def _is_float_result(argument, func):
+    """``float(...)`` itself, or a local name that is bound to the result of float(...) somewhere in the function."""
+    def made_by_float(node):
+        return isinstance(node, ast.Call) and isinstance(node.func, ast.Name) and node.func.id == "float"
+
+    if made_by_float(argument):
+        return True
+    if isinstance(argument, ast.Name) and func is not None:
+        for node in ast.walk(func.node):
+            if isinstance(node, ast.Assign) and made_by_float(node.value) and any(isinstance(t, ast.Name) and t.id == argument.id for t in node.targets):
+                return True
+    return False
+
+
 def lookup_external(name, call, func=None):
     if name == "builtins.next":
         # with a default nothing is raised; on a token stream the end marker comes first (token-sequence tables); anything
@@ -196,6 +211,8 @@ def lookup_external(name, call, func=None):
         return ()
     if name == "builtins.int" and not call.args:
         return ()
+    if name == "builtins.int" and _is_float_result(call.args[0], func):
+        return classes + ("builtins.OverflowError",)  # int(float("inf")); int(float("nan")) is a ValueError
     if name in ("io.open", "builtins.open"):
         encoding = next((keyword.value for keyword in call.keywords if keyword.arg == "encoding"), None)
         if encoding is None or isinstance(encoding, ast.Constant):
